@@ -105,24 +105,29 @@ Proof.
   destruct (snd x); destruct (get (fst x) _); split; reflexivity.
 Qed.
 
+Lemma emit_tw : forall sg acc eo, same_tw (fst acc) (fst (emit sg acc eo)).
+Proof.
+  intros sg [w loc] [e its]. unfold emit. cbn [fst].
+  destruct (is_send sg e); cbn [fst]; [|apply same_tw_refl].
+  destruct (is_slot sg e); [|split; reflexivity].
+  unfold slot_push. destruct (Nat.ltb _ _); split; reflexivity.
+Qed.
+
 Lemma run_node_tw : forall sg ext acc n, same_tw (fst acc) (fst (run_node sg ext acc n)).
 Proof.
   intros sg ext [w loc] n. unfold run_node. cbn [fst].
   set (ins := map (fun e => get e loc) (n_ins n)).
   assert (H1 : forall w1 outs, same_tw w w1 ->
-    same_tw w (fst (fold_left (fun (acc : world * bufs) (eo : N * list val) =>
-       let '(w, loc) := acc in let '(e, items) := eo in
-       if is_send sg e then (set_buf w (push_to e items (w_buf w)), loc) else (w, push_to e items loc))
-       (combine (n_outs n) outs) (w1, loc)))).
+    same_tw w (fst (fold_left (emit sg) (combine (n_outs n) outs) (w1, loc)))).
   { intros w1 outs Hw1.
     apply (fold_left_inv (fun acc : world * bufs => same_tw w (fst acc))); [|exact Hw1].
-    intros [a l] [e its] Ha. cbn [fst] in *. destruct (is_send sg e); cbn [fst]; [|exact Ha].
-    eapply same_tw_trans; [exact Ha|]. split; reflexivity. }
-  destruct (n_kind n) as [o|o|k|k].
+    intros acc eo Ha. eapply same_tw_trans; [exact Ha | apply emit_tw]. }
+  destruct (n_kind n) as [o|o|k|k|h f].
   - destruct (op_step _ _ _) as [s' outs]. apply H1. split; reflexivity.
   - destruct (op_step _ _ _) as [s' outs]. apply H1. split; reflexivity.
   - apply H1. apply same_tw_refl.
   - apply H1. split; reflexivity.
+  - destruct (ref_fold f _ _) as [[slot' outs] bad]. apply H1. destruct bad; split; reflexivity.
 Qed.
 
 Lemma run_sg_tw : forall ext sg w, same_tw w (run_sg ext sg w).
@@ -220,24 +225,29 @@ Proof.
   rewrite H. reflexivity.
 Qed.
 
-(* run_available_sync keeps ticking exactly while the flag is set *)
-Lemma run_avail_step : forall f p ext w n,
-  run_avail_loop (S f) p ext w n =
+(* run_available_sync keeps ticking exactly while the flag is set: by a non-lazy deferred buffer
+   or by an external wake-up that arrived during the tick *)
+Lemma run_avail_step : forall f p wakes ext w n,
+  run_avail_loop (S f) p wakes ext w n =
   let w1 := fst (run_tick p ext w) in
-  if existsb (check_b (body_world p ext (set_wake w false))) (p_sched p)
-  then run_avail_loop f p [] (set_wake w1 false) (n + 1)
+  if existsb (check_b (body_world p ext (set_wake w false))) (p_sched p) || hd false wakes
+  then run_avail_loop f p (tl wakes) [] (set_wake w1 false) (n + 1)
   else (w1, n + 1).
 Proof.
-  intros f p ext w n. cbn [run_avail_loop].
+  intros f p wakes ext w n. cbn [run_avail_loop].
   pose proof (run_tick_wake p ext w) as H.
-  destruct (run_tick p ext w) as [w1 b]. cbn [fst] in *. rewrite H. reflexivity.
+  destruct (run_tick p ext w) as [w1 b]. cbn [fst] in *.
+  destruct (hd false wakes); cbn [w_wake set_wake].
+  - rewrite orb_true_r. reflexivity.
+  - rewrite orb_false_r, H. destruct (existsb _ _); reflexivity.
 Qed.
 
-(* a program without non-lazy deferred handoffs (only defer_tick_lazy, or none): exactly one tick *)
+(* a program without non-lazy deferred handoffs (only defer_tick_lazy, or none) and no external
+   wake-up: exactly one tick *)
 Theorem lazy_never_ticks : forall p ext w,
   p_sched p = [] -> snd (run_available p ext w) = 1.
 Proof.
-  intros p ext w H. unfold run_available, avail_fuel. rewrite run_avail_step. rewrite H. reflexivity.
+  intros p ext w H. unfold run_available, run_available_w, avail_fuel. rewrite run_avail_step. rewrite H. reflexivity.
 Qed.
 
 (* ------------------------------------------------------------------ C24 (2): the double buffer *)
